@@ -2,6 +2,7 @@ package definition
 
 import (
 	"encoding/json"
+	"slices"
 
 	"github.com/nyaruka/gocommon/i18n"
 	"github.com/nyaruka/gocommon/jsonx"
@@ -72,12 +73,14 @@ func NewLocalization() flows.Localization {
 	return make(localization)
 }
 
-// Languages gets the list of languages included in this localization
+// Languages gets the list of languages included in this localization, sorted A-Z so that
+// anything derived from it (extracted templates, dependencies, issues, events) has a stable order
 func (l localization) Languages() []i18n.Language {
 	languages := make([]i18n.Language, 0, len(l))
 	for lang := range l {
 		languages = append(languages, lang)
 	}
+	slices.Sort(languages)
 	return languages
 }
 
